@@ -578,6 +578,12 @@ def r3i_every_analysis_parses(ctx):
         f = op.fn
         dom = f.dominators().get(op.bb, set())
         cap = any(o2.fn.id == f.id and o2.method == "len" and o2.bb in dom for o2 in db.ops_by_map.get(ts, []))
+        if not cap:
+            # the capacity test may sit in the caller(s) when the eviction is split into phases (`victims()` + `evict(paths)`)
+            callers = db.origins.callers.get(f.root, [])
+            cap = bool(callers) and all(
+                any(o2.fn.id == cf.id and o2.method == "len" and o2.bb in cf.dominators().get(cbb, set()) for o2 in db.ops_by_map.get(ts, []))
+                for cf, cbb, _c in callers)
         key = "R3i|%s|%s.%s" % (f.root, ts, op.method)
         if cap:
             r.ok(sample={"drop": key, "why": "behind a capacity test"})
